@@ -500,6 +500,7 @@ class _UintLink(Contract):
     def this(self, ctx):
         t, n = z3.Int("stored_value"), z3.Int("bit_size")
         ctx.assume(t >= 0)
+        ctx.assume(z3.Or(*[n == k for k in sorted(self.U.SUPPORTED_UINT_SIZES)]))     # invariant of UintTypeSpec (its __init__ refuses anything else)
         var = SRef(t, self.AbstractVar)
         spec = stamp(SObj(self.U.UintTypeSpec, {"size": n}))
         ctx.ghost.update(var=var, n=n, calls=[])
@@ -588,3 +589,36 @@ class UintSetLink(_UintLink):
 
     def post(self, ctx, I, outcome, st):
         self.check(ctx, outcome, "uint_set", [("own-bit-size", ctx.ghost["n"]), ("own-variable", ctx.ghost["var"]), ("the-value", ctx.ghost["v"])])
+
+
+class UintSetFromUint(_UintLink):
+    """Uint.set(<another abi.Uint of width m>) on a value of width n: rejected with TealInputError iff m != n; otherwise uint_set(n, own variable, that value).
+    (uint_set stores a Uint's get() without a run-time check: sound only because the widths are equal - this clause - and because every store
+    into a Uint's variable is range-checked - O6.17 / O6.18 and the decoders, which read exactly N/8 bytes.)"""
+    target = "pyteal.ast.abi.uint.Uint.set"
+
+    def __init__(self):
+        super().__init__()
+        from pyteal.errors import TealInputError
+        self.raises_only = (TealInputError,)
+
+    def setup(self, ctx, I):
+        this, var = self.this(ctx)
+        m, t2 = z3.Int("other_bit_size"), z3.Int("other_stored_value")
+        ctx.assume(t2 >= 0)
+        ctx.assume(z3.Or(*[m == k for k in sorted(self.U.SUPPORTED_UINT_SIZES)]))
+        other = stamp(SObj(self.U.Uint, {"_stored_value": SRef(t2, self.AbstractVar), "_type_spec": stamp(SObj(self.U.UintTypeSpec, {"size": m}))}))
+        ctx.ghost.update(m=m, other=other)
+        return {"args": [this, other]}
+
+    def post(self, ctx, I, outcome, st):
+        n, m, other = ctx.ghost["n"], ctx.ghost["m"], ctx.ghost["other"]
+        if outcome[0] == "raise":
+            ctx.oblige("rejects-only-a-different-width", m != n)
+            return
+        ctx.oblige("accepts-only-the-same-width", m == n)
+        calls = ctx.ghost["calls"]
+        ok = len(calls) == 1 and calls[0][0] == "uint_set" and len(calls[0][1]) == 3 and calls[0][1][2] is other and calls[0][1][1] is ctx.ghost["var"]
+        ctx.oblige("hands-own-variable-and-that-value-to-uint_set", z3.BoolVal(bool(ok)))
+        if ok:
+            ctx.oblige("with-the-own-bit-size", calls[0][1][0] == n)
